@@ -257,7 +257,14 @@ class Gen:
             arg = self.gen(kind, d - 1, env)
             if r.random() < 0.3:
                 return ('calln', ('fun', (p,), body), ((p, arg),))
-            extra = (self.num_lit(),) if r.random() < 0.08 else ()
+            c2 = r.random()
+            if c2 < 0.06:      # too few positional arguments / a missing named argument: the invocation is null
+                q = self.fresh(env2)
+                if q != p:
+                    return ('call', ('fun', (p, q), body), (arg,)) if r.random() < 0.5 else ('calln', ('fun', (p, q), body), ((p, arg),))
+            if c2 < 0.10:
+                return ('call', ('fun', (p,), body), ())
+            extra = (self.num_lit(),) if c2 > 0.92 else ()
             return ('call', ('fun', (p,), body), (arg,) + extra)
         if c < 0.64:   # a context entry referring to an earlier entry, then path
             k1, k2 = 104, 105
